@@ -29,7 +29,7 @@ def builder(seed, n, defaults, tag):
         span = rng.uniform(0.5, 2.0)
         rt = 10 ** rng.uniform(-7, -4)
         base = dict(prob=prob, x0=0.0, xend=span, rtol=rt, atol=rt * 1e-2, defaults=defaults)
-        kind = ["massdefault", "massident", "jacband", "massdiag", "dae", "jacsrc", "massband"][g % 7]
+        kind = ["massdefault", "massident", "jacband", "massdiag", "dae", "jacsrc", "massband", "jacpivot"][g % 8]
         variants = []
         if kind == "massdefault":
             for ms in ("identity", "full", "banded:0:0", "banded:1:1"):
@@ -42,6 +42,27 @@ def builder(seed, n, defaults, tag):
         elif kind == "jacband":
             for m in ("RADAU", "BDF"):
                 for js in ("full", "banded:1:1", "banded:%d:%d" % (min(2, nn - 1), min(1, nn - 1)) if nn > 2 else "banded:1:1"):
+                    variants.append((m + "/" + js, dict(base, method=m, use_jac=True, jac_storage=js)))
+        elif kind == "jacpivot":
+            # cascade with a dominant sub- (or super-) diagonal: the Newton matrices I - cJ / fac*I - J need row interchanges, whose
+            # fill-in leaves the band of J (seeded change C15-b: BDF re-assembled only the band of its in-place factorised matrix)
+            nn = rng.randint(3, 6)
+            K = rng.choice([50.0, 1e3, 2e4])
+            lower = rng.random() < 0.7
+            A = [[0.0] * nn for _ in range(nn)]
+            for i in range(nn):
+                A[i][i] = -rng.choice([1.0, 2.0, 0.5])
+                if lower and i > 0:
+                    A[i][i - 1] = K
+                if not lower and i < nn - 1:
+                    A[i][i + 1] = K
+            y0 = [1.0] + [0.0] * (nn - 1) if lower else [0.0] * (nn - 1) + [1.0]
+            pp = {"name": "cascade%d" % nn, "f": [lin(A[i], nn) for i in range(nn)], "y0": y0,
+                  "jac": [[C(A[i][j]) for j in range(nn)] for i in range(nn)], "A": A}
+            base = dict(base, prob=pp, xend=rng.choice([0.5, 1.0, 3.0]))
+            band = "banded:1:0" if lower else "banded:0:1"
+            for m in ("RADAU", "BDF"):
+                for js in ("full", band, "banded:1:1"):
                     variants.append((m + "/" + js, dict(base, method=m, use_jac=True, jac_storage=js)))
         elif kind == "massdiag":
             dg = [rng.choice([0.5, 2.0, 4.0, 1.0]) for _ in range(nn)]
@@ -116,7 +137,7 @@ def group_oracle(metas, parsed):
             for c in cids[1:]:
                 if not same(parsed[cids[0]], parsed[c]):
                     out.append((c, "mass-storage:banded", "mass storage '%s' gives a different trajectory than Full for the same banded mass matrix" % metas[c][0]["variant"]))
-        elif kind == "jacband":
+        elif kind in ("jacband", "jacpivot"):
             for m in ("RADAU", "BDF"):
                 mine = [c for c in cids if metas[c][0]["variant"].startswith(m)]
                 for c in mine[1:]:
@@ -161,7 +182,7 @@ def check():
         "C15", "C15.v" if os.path.exists(os.path.join(solvercheck.common.COQ, "props", "C15.v")) else None,
         [dict(builder=builder, n_quick=160, n_thorough=2400, group_oracle=group_oracle)],
         [oracles.oracle_shapes], TB,
-        "groups over tridiagonal linear systems n=1..8: no mass matrix under Identity/Full/Banded mass storage; explicit identity mass "
+        "groups over tridiagonal linear systems n=1..8 (and cascades with a dominant off-diagonal, whose Newton matrices need row interchanges): no mass matrix under Identity/Full/Banded mass storage; explicit identity mass "
         "under Full/Banded; Full vs Banded Jacobian with equal entries (Radau, BDF); diagonal mass vs the explicit form M^-1 f; an index-1 "
         "DAE with singular mass (constraint residual, Full vs Banded mass, analytic vs FD Jacobian); analytic vs FD Jacobian. Storage "
         "variants must agree bit for bit, formulations within tolerance; every run replayed bit-for-bit on the model")
